@@ -1728,8 +1728,10 @@ class Rule(metaclass=LogicalType):
                 return cls.post_validate(value, context)
 
             try:
+                # the converter is looked up at the time of the conversion (a cached lookup): the one found
+                # when the class was declared may have been overridden by a later registration
                 value = context.transformer.apply(
-                    value, cls.__origin__, func=cls.__origin_transformer__
+                    value, cls.__origin__, func=cls.transformer_cls.resolver_transformer(cls.__origin__)
                 )
             except Exception as e:
                 error = exc.ParseError(origin_exc=e)
@@ -1927,6 +1929,18 @@ class Rule(metaclass=LogicalType):
         return resolved
 
     @classmethod
+    def _arg_transformer(cls, arg):
+        # the converter of an argument type is looked up at the time of the conversion (a cached lookup):
+        # the one found when the class was declared may have been overridden by a later registration
+        if isinstance(arg, ForwardRef):
+            if not arg.__forward_evaluated__:
+                return None
+            arg = arg.__forward_value__
+        if not isinstance(arg, type):
+            return None
+        return cls.transformer_cls.resolver_transformer(arg)
+
+    @classmethod
     def resolve_args_parser(cls):
         if not cls.__origin__ or not cls.__args__:
             return None
@@ -1951,7 +1965,7 @@ class Rule(metaclass=LogicalType):
                 for item in range(len(cls.__args__), len(value)):
                     context.handle_error(exc.TupleExceedError(item=item, value=value[item]))
 
-        for i, (arg, func) in enumerate(zip(cls.__args__, cls.__arg_transformers__)):
+        for i, arg in enumerate(cls.__args__):
             if i >= len(value):
                 context.handle_error(
                     exc.AbsenceError(
@@ -1964,7 +1978,7 @@ class Rule(metaclass=LogicalType):
             with context.enter(route=i) as arg_context:
                 try:
                     result.append(
-                        arg_context.transformer.apply(value[i], arg, func=func)
+                        arg_context.transformer.apply(value[i], arg, func=cls._arg_transformer(arg))
                     )
                 except Exception as e:
                     error = exc.ParseError(
@@ -2003,7 +2017,7 @@ class Rule(metaclass=LogicalType):
     def _parse_seq_args(cls, value: Union[list, set], context: RuntimeContext):
         result = []
         arg_type = cls.__args__[0]
-        arg_transformer = cls.__arg_transformers__[0]
+        arg_transformer = cls._arg_transformer(arg_type)
         options = context.options
 
         for i, item in enumerate(cls._read_items(value, context)):
@@ -2035,12 +2049,12 @@ class Rule(metaclass=LogicalType):
             return value
 
         key_type = cls.__args__[0]
-        key_transformer = cls.__arg_transformers__[0]
+        key_transformer = cls._arg_transformer(key_type)
         value_type = None
         value_transformer = None
         if len(cls.__args__) > 1:
             value_type = cls.__args__[1]
-            value_transformer = cls.__arg_transformers__[1]
+            value_transformer = cls._arg_transformer(value_type)
 
         options = context.options
 
